@@ -53,14 +53,15 @@ pub fn emit(event: Event) {
     })
 }
 
-/// Insert a harness marker.
-pub fn mark(kind: i64, arg: i64) {
+/// Insert a harness marker, with the registers the harness can read (`__state`,
+/// `__initial_state`, `__done`).
+pub fn mark(kind: i64, arg: i64, state: usize, initial_state: usize, done: bool) {
     emit(Event {
         op: Op::Mark,
         c: None,
-        state: 0,
-        initial_state: 0,
-        done: false,
+        state,
+        initial_state,
+        done,
         match_start: Loc::default(),
         match_end: Loc::default(),
         last_match: None,
